@@ -100,6 +100,26 @@ Theorem C13_set_ancestors : forall p q v d e,
 Proof. exact d_get_set_ancestor. Qed.
 Print Assumptions C13_set_ancestors.
 
+(** a set whose post-set hook fails (set_attr marks the ancestors and stores the
+    value before the hook runs): the state is the state after the successful
+    set — the value is in place AND the directories above it are marked, so
+    every law about sets (C13_refines_dictionary, C13_set_ancestors,
+    C13_set_then_get) holds for it; only the status is the hook's *)
+Theorem C13_failed_hook_set_is_a_set : forall st c k ty v s,
+  snd (astep_hookfail st c k ty v s) = snd (astep (OSet c k ty v) s) /\
+  (fst (astep (OSet c k ty v) s) = AStatus KDUMP_OK -> fst (astep_hookfail st c k ty v s) = AStatus st) /\
+  (fst (astep (OSet c k ty v) s) <> AStatus KDUMP_OK ->
+   fst (astep_hookfail st c k ty v s) = fst (astep (OSet c k ty v) s)).
+Proof. exact hookfail_state. Qed.
+Print Assumptions C13_failed_hook_set_is_a_set.
+
+Theorem C13_failed_hook_set_spec : forall st p ty v l,
+  snd (dl_check_set_hookfail st p ty v l) = snd (dl_check_set p ty v l) /\
+  fst (dl_check_set_hookfail st p ty v l) =
+  (if status_eqb (fst (dl_check_set p ty v l)) KDUMP_OK then st else fst (dl_check_set p ty v l)).
+Proof. exact hookfail_spec. Qed.
+Print Assumptions C13_failed_hook_set_spec.
+
 Theorem C13_clear_elsewhere : forall p q d,
   prefix p q = false -> d_get q (d_clear p d) = d_get q d.
 Proof. exact d_get_clear_other. Qed.
